@@ -1,4 +1,69 @@
 package main
 
+// Environment models: math/rand (arbitrary values of the documented range),
+// later: io / bufio / strconv / encoding/binary.
+
+import (
+	"go/token"
+	"go/types"
+)
+
 func registerIOIntrinsics(reg func(string, intrinsic), used func(string, intrinsic) intrinsic) {
+	// ---------------- math/rand ----------------
+	unitFloat := func(m *Machine, label string) value {
+		t := m.newInput(label, "f64", m.floatSort(64))
+		v := symFloat{t, 64}
+		m.assume(m.binop(token.GEQ, nil, v, float64(0)))
+		m.assume(m.binop(token.LSS, nil, v, float64(1)))
+		return v
+	}
+	newOpaque := func(fr *frame) value {
+		rt := fr.fn.Signature.Results().At(0).Type()
+		if p, ok := rt.Underlying().(*types.Pointer); ok {
+			cell := zero(p.Elem())
+			return &cell
+		}
+		return zero(rt)
+	}
+	reg("math/rand.NewSource", used("math/rand (arbitrary values in the documented range)", func(m *Machine, fr *frame, a []value) value {
+		return iface{}
+	}))
+	reg("math/rand.New", used("math/rand (arbitrary values in the documented range)", func(m *Machine, fr *frame, a []value) value {
+		return newOpaque(fr)
+	}))
+	reg("math/rand.Int63", func(m *Machine, fr *frame, a []value) value { return int64(0) })
+	reg("math/rand.Int", func(m *Machine, fr *frame, a []value) value { return int(0) })
+	reg("math/rand.Seed", func(m *Machine, fr *frame, a []value) value { return nil })
+	reg("math/rand.Float64", used("math/rand (arbitrary values in the documented range)", func(m *Machine, fr *frame, a []value) value {
+		return unitFloat(m, "rand.Float64")
+	}))
+	reg("(*math/rand.Rand).Float64", used("math/rand (arbitrary values in the documented range)", func(m *Machine, fr *frame, a []value) value {
+		return unitFloat(m, "rand.Float64")
+	}))
+	normFloat := func(m *Machine, fr *frame, a []value) value {
+		t := m.newInput("rand.NormFloat64", "f64", m.floatSort(64))
+		if m.mode == ModeFP {
+			m.addPC(m.tt.Not(m.tt.App("fp.isNaN", sortBool, t)))
+			m.addPC(m.tt.Not(m.tt.App("fp.isInfinite", sortBool, t)))
+		}
+		return symFloat{t, 64}
+	}
+	reg("math/rand.NormFloat64", used("math/rand (arbitrary values in the documented range)", normFloat))
+	reg("(*math/rand.Rand).NormFloat64", used("math/rand (arbitrary values in the documented range)", normFloat))
+	intn := func(m *Machine, fr *frame, a []value) value {
+		n := a[len(a)-1]
+		nc, ok := n.(int)
+		if !ok {
+			panic(pathEnd{status: StUnsupported, msg: "rand.Intn with symbolic bound"})
+		}
+		if nc <= 0 {
+			panic(targetPanic{v: "invalid argument to Intn"})
+		}
+		t := m.newInput("rand.Intn", "int64", sortBV(64))
+		m.addPC(m.tt.App("bvsge", sortBool, t, m.tt.BVLit(0, 64)))
+		m.addPC(m.tt.App("bvslt", sortBool, t, m.tt.BVLit(uint64(nc), 64)))
+		return symInt{t, types.Int}
+	}
+	reg("math/rand.Intn", used("math/rand (arbitrary values in the documented range)", intn))
+	reg("(*math/rand.Rand).Intn", used("math/rand (arbitrary values in the documented range)", intn))
 }
